@@ -11,6 +11,18 @@ static int jwt_ec_d2i(jwt_t *jwt, char **out, unsigned int *len, unsigned char *
 static int openssl_sign_sha_pem(jwt_t *jwt, char **out, unsigned int *len, const char *str, unsigned int str_len);
 static int openssl_verify_sha_pem(jwt_t *jwt, const char *head, unsigned int head_len, unsigned char *sig, int slen);
 
+/* C05 / C12 completeness: unless a library call fails, a signature of the right
+ * shape for a key of the right family is judged by the primitive and the
+ * verdict IS the primitive's verdict -- nothing the primitive would accept is
+ * turned away by libjwt (and both providers then agree with their primitive) */
+#define C05_OSSL_VERIFY_COMPLETE \
+__CPROVER_requires(g_lib_fail == 0 && g_ver_calls == 0) \
+__CPROVER_ensures((g_lib_fail == 0 && __CPROVER_old(jwt->error) == 0 && \
+	SPEC_OSSL_KEY_FITS(jwt->alg, ((EVP_PKEY *)jwt->key->provider_data)->id) && \
+	(!SPEC_IS_ES(jwt->alg) || (size_t)sig_len == 2 * SPEC_EC_N(jwt->key->bits))) ==> \
+	(g_ver_calls == 1 && ((jwt->error == 0) == (g_ver_valid == 1))))
+DECL_OPS_VERIFY_SHA_PEM_X(contract_C05_openssl_verify_sha_pem, GATE_PEM_FULL, C05_OSSL_VERIFY_COMPLETE);
+
 /* C05 lemma L4: DER -> fixed-width r||s: exactly 2n bytes, n = ceil(bits/8); fails (no
  * output) when r or s does not fit; never writes outside the buffer (checked by the model
  * of BN_bn2bin: destination takes BN_num_bytes bytes) */
